@@ -2,6 +2,11 @@ import SpecVerif.Proofs.Lemmas.Burg
 import SpecVerif.Proofs.Lemmas.SchurCohn
 import Mathlib.Algebra.Star.Rat
 import SpecVerif.Proofs.Lemmas.CRatField
+import SpecVerif.Proofs.Lemmas.LinPred
+import SpecVerif.Model.Criteria
+import SpecVerif.Generated.CriteriaSrc
+import Mathlib.Tactic.Ring
+import Mathlib.Tactic.FieldSimp
 /-
   C13 — Burg's method (`arburg`, model in `SpecVerif/Model/Burg.lean`).
 
@@ -494,5 +499,50 @@ example : @burgRun CRat CRat.instAdd CRat.instSub CRat.instMul CRat.instDiv CRat
     CRat.instOfNatOfNatNat CRat.instOfNatOfNatNat_1 CRat.instNatCast CRat.instConj = burgRun := rfl
 
 end CRatInstantiation
+
+/-! ## the order-selection criteria of the model ARE the library's source
+
+`SpecVerif.Src.AIC … MDL` (`Generated/CriteriaSrc.lean`) are translated on every run from the abstract syntax tree of
+`spectrum/criteria.py` (`harness/srcgen.py`).  The hand-written `critValue` — which the driver executes, which `arburg`'s stopping
+rule uses (`critStops`) and which the scaling theorems of C03 are about — is equal to that translation for every sample size,
+variance and order: for these six functions the tie between model and code is this theorem, re-checked by the kernel against
+what the source says now. -/
+
+section SourceTie
+set_option linter.unusedSimpArgs false
+set_option linter.unusedTactic false
+set_option linter.unreachableTactic false
+open SpecVerif.Src
+
+theorem critValue_eq_source (N : ℕ) (ρ : ℝ) (k : ℕ) :
+    critValue .AIC N ρ k = Src.AIC (N : ℝ) ρ (k : ℝ) ∧
+    critValue .AICc N ρ k = Src.AICc (N : ℝ) ρ (k : ℝ) ∧
+    critValue .KIC N ρ k = Src.KIC (N : ℝ) ρ (k : ℝ) ∧
+    critValue .AKICc N ρ k = Src.AKICc (N : ℝ) ρ (k : ℝ) ∧
+    critValue .FPE N ρ k = Src.FPE (N : ℝ) ρ (k : ℝ) ∧
+    critValue .MDL N ρ k = Src.MDL (N : ℝ) ρ (k : ℝ) := by
+  -- `rfl` up to unfolding when the source is written as the model is; `ring` absorbs harmless re-arrangements of a formula
+  refine ⟨?_, ?_, ?_, ?_, ?_, ?_⟩ <;>
+    first
+      | (simp only [critValue, Src.AIC, Src.AICc, Src.KIC, Src.AKICc, Src.FPE, Src.MDL, Nat.cast_ofNat, Nat.cast_one]; done)
+      | (simp only [critValue, Src.AIC, Src.AICc, Src.KIC, Src.AKICc, Src.FPE, Src.MDL, Nat.cast_ofNat, Nat.cast_one]; ring)
+
+/-- hence the stopping test of `arburg` is the comparison of the library's own two criterion values -/
+theorem critStops_eq_source (N : ℕ) (ρ₀ ρ₁ : ℝ) (k : ℕ) :
+    critStops .AIC N ρ₀ ρ₁ k = decide (Src.AIC (N : ℝ) ρ₀ ((k - 1 : ℕ) : ℝ) < Src.AIC (N : ℝ) ρ₁ (k : ℝ)) ∧
+    critStops .MDL N ρ₀ ρ₁ k = decide (Src.MDL (N : ℝ) ρ₀ ((k - 1 : ℕ) : ℝ) < Src.MDL (N : ℝ) ρ₁ (k : ℝ)) ∧
+    critStops .FPE N ρ₀ ρ₁ k = decide (Src.FPE (N : ℝ) ρ₀ ((k - 1 : ℕ) : ℝ) < Src.FPE (N : ℝ) ρ₁ (k : ℝ)) := by
+  have h := critValue_eq_source N ρ₀ (k - 1)
+  have h' := critValue_eq_source N ρ₁ k
+  refine ⟨?_, ?_, ?_⟩
+  · simp only [critStops, h.1, h'.1]; rfl
+  · simp only [critStops, h.2.2.2.2.2, h'.2.2.2.2.2]; rfl
+  · simp only [critStops, h.2.2.2.2.1, h'.2.2.2.2.1]; rfl
+
+/-- the translated source is not a degenerate term: AIC(N = 10, ρ = 1, k = 2) = 6 -/
+example : Src.AIC (10 : ℝ) 1 2 = 6 := by
+  simp only [Src.AIC, RealFn.log, Real.log_one]; norm_num
+
+end SourceTie
 
 end SpecVerif.C13
